@@ -756,6 +756,7 @@ func (s *Subscription) processModelEvent(event *rescache.ResourceEvent) {
 }
 
 func (s *Subscription) handleReaccess(t *rescache.Throttle) {
+	verifNote("reaccess", "cid", s.c.CID(), "rid", s.rid, "direct", s.direct)
 	s.access = nil
 	s.flags &= ^flagReaccess
 
@@ -800,6 +801,7 @@ func (s *Subscription) Dispose() {
 		return
 	}
 
+	verifNote("dispose", "cid", s.c.CID(), "rid", s.rid, "ready", len(s.readyCallbacks), "access", len(s.accessCallbacks), "called", s.flags&flagAccessCalled != 0)
 	state := s.state
 	s.state = stateDisposed
 	s.readyCallbacks = nil
@@ -820,6 +822,7 @@ func (s *Subscription) Dispose() {
 // a subscription has indirect references, but has reached 0 indirectsent
 // references.
 func (s *Subscription) Unsend() {
+	verifNote("unsend", "cid", s.c.CID(), "rid", s.rid)
 	s.state = stateReady
 	s.indirectsent = 0
 
@@ -857,6 +860,7 @@ func (s *Subscription) reaccess(t *rescache.Throttle) {
 	}
 
 	if s.queueFlag != 0 {
+		verifNote("reaccessDeferred", "cid", s.c.CID(), "rid", s.rid, "direct", s.direct)
 		s.flags |= flagReaccess
 		return
 	}
